@@ -95,6 +95,102 @@ func (a *agg) get(want int) *big.Rat {
 	return a.val
 }
 
+// loadOrStoreKeepsRegistered: models.(*Session).LoadOrStoreModuleState has the shape
+//   lock; defer unlock; if r, ok := s.moduleStates[name]; ok { return r }; s.moduleStates[name] = state; return state
+// i.e. an already registered state is returned and never replaced.  Anything else: false (fail closed).
+func loadOrStoreKeepsRegistered(repo string) bool {
+	fset := token.NewFileSet()
+	pkgs, err := parser.ParseDir(fset, filepath.Join(repo, "models"), func(fi os.FileInfo) bool {
+		n := fi.Name()
+		return len(n) < 8 || n[len(n)-8:] != "_test.go"
+	}, 0)
+	if err != nil {
+		return false
+	}
+	found, good := 0, false
+	for _, pkg := range pkgs {
+		for _, file := range pkg.Files {
+			for _, d := range file.Decls {
+				fd, ok := d.(*ast.FuncDecl)
+				if !ok || fd.Body == nil || fd.Recv == nil || fd.Name.Name != "LoadOrStoreModuleState" {
+					continue
+				}
+				found++
+				if fd.Type.Params == nil || len(fd.Type.Params.List) != 2 || len(fd.Type.Params.List[0].Names) != 1 || len(fd.Type.Params.List[1].Names) != 1 {
+					continue
+				}
+				key, val := fd.Type.Params.List[0].Names[0].Name, fd.Type.Params.List[1].Names[0].Name
+				var rest []ast.Stmt
+				for _, st := range fd.Body.List {
+					// skip x.Lock() / defer x.Unlock()
+					if es, ok := st.(*ast.ExprStmt); ok {
+						if ce, ok := es.X.(*ast.CallExpr); ok {
+							if se, ok := ce.Fun.(*ast.SelectorExpr); ok && se.Sel.Name == "Lock" {
+								continue
+							}
+						}
+					}
+					if ds, ok := st.(*ast.DeferStmt); ok {
+						if se, ok := ds.Call.Fun.(*ast.SelectorExpr); ok && se.Sel.Name == "Unlock" {
+							continue
+						}
+					}
+					rest = append(rest, st)
+				}
+				if len(rest) != 3 {
+					continue
+				}
+				isStates := func(e ast.Expr) bool {
+					ix, ok := e.(*ast.IndexExpr)
+					if !ok {
+						return false
+					}
+					se, ok := ix.X.(*ast.SelectorExpr)
+					id, ok2 := ix.Index.(*ast.Ident)
+					return ok && ok2 && se.Sel.Name == "moduleStates" && id.Name == key
+				}
+				is, ok := rest[0].(*ast.IfStmt)
+				if !ok || is.Else != nil || is.Init == nil {
+					continue
+				}
+				as, ok := is.Init.(*ast.AssignStmt)
+				if !ok || as.Tok != token.DEFINE || len(as.Lhs) != 2 || len(as.Rhs) != 1 || !isStates(as.Rhs[0]) {
+					continue
+				}
+				rv, ok1 := as.Lhs[0].(*ast.Ident)
+				okv, ok2 := as.Lhs[1].(*ast.Ident)
+				cond, ok3 := is.Cond.(*ast.Ident)
+				if !ok1 || !ok2 || !ok3 || cond.Name != okv.Name || len(is.Body.List) != 1 {
+					continue
+				}
+				rs, ok := is.Body.List[0].(*ast.ReturnStmt)
+				if !ok || len(rs.Results) != 1 {
+					continue
+				}
+				if id, ok := rs.Results[0].(*ast.Ident); !ok || id.Name != rv.Name {
+					continue
+				}
+				st, ok := rest[1].(*ast.AssignStmt)
+				if !ok || st.Tok != token.ASSIGN || len(st.Lhs) != 1 || len(st.Rhs) != 1 || !isStates(st.Lhs[0]) {
+					continue
+				}
+				if id, ok := st.Rhs[0].(*ast.Ident); !ok || id.Name != val {
+					continue
+				}
+				rs2, ok := rest[2].(*ast.ReturnStmt)
+				if !ok || len(rs2.Results) != 1 {
+					continue
+				}
+				if id, ok := rs2.Results[0].(*ast.Ident); !ok || id.Name != val {
+					continue
+				}
+				good = true
+			}
+		}
+	}
+	return found == 1 && good
+}
+
 func main() {
 	if len(os.Args) < 3 {
 		fmt.Fprintln(os.Stderr, "usage: gridconsts <repo> <coq dir>")
@@ -110,7 +206,7 @@ func main() {
 	var eps *big.Rat
 	var blend, rng, reach agg
 	var gridArgs []string
-	gridCalls, gridInsideNotOk := 0, 0
+	gridCalls, gridInsideNotOk, gridInsideLoadOrStore := 0, 0, 0
 	if err == nil {
 		for _, pkg := range pkgs {
 			for _, file := range pkg.Files {
@@ -171,6 +267,15 @@ func main() {
 										gridArgs = append(gridArgs, l)
 									}
 								}
+								// is the call an argument of `s.LoadOrStoreModuleState(name, &State{…})` (which keeps a
+								// registered state: checked below on models/session.go) ?
+								for _, s := range stack {
+									if ce, ok := s.(*ast.CallExpr); ok && ce != x {
+										if se, ok := ce.Fun.(*ast.SelectorExpr); ok && se.Sel.Name == "LoadOrStoreModuleState" {
+											gridInsideLoadOrStore++
+										}
+									}
+								}
 								// is the call inside the body of `if !ok { … }` ?
 								for _, s := range stack {
 									if is, ok := s.(*ast.IfStmt); ok {
@@ -224,7 +329,8 @@ func main() {
 	fmt.Fprintf(&b, "Definition ray_reach : option Q := %s.\n", qs(reach.get(2)))
 	if gridCalls == 1 && len(gridArgs) == 3 {
 		fmt.Fprintf(&b, "Definition module_grid_args : option (Z * Z * Z) := Some (%s, %s, %s)%%Z.\n", gridArgs[0], gridArgs[1], gridArgs[2])
-		fmt.Fprintf(&b, "Definition init_recreates_grid : option bool := Some %v.\n", gridInsideNotOk == 0)
+		guarded := gridInsideNotOk > 0 || (gridInsideLoadOrStore > 0 && loadOrStoreKeepsRegistered(repo))
+		fmt.Fprintf(&b, "Definition init_recreates_grid : option bool := Some %v.\n", !guarded)
 	} else {
 		b.WriteString("Definition module_grid_args : option (Z * Z * Z) := None.\n")
 		b.WriteString("Definition init_recreates_grid : option bool := None.\n")
